@@ -213,7 +213,7 @@ esl_gev_logsurv(double x, double mu, double lambda, double alpha)
     * the three cases (small, large, and ok lya1)
     */
    if (ya1 <= 0) {
-     if (x < mu) return 1.0;        	/* Frechet case */
+     if (x < mu) return 0.0;        	/* Frechet case: below the lower bound, surv = 1, log surv = 0 */
      else        return -eslINFINITY;   /* Weibull case */
    }
 
